@@ -23,7 +23,10 @@ for dd in sorted(glob.glob('/verif/seeded/*/')):
     first=re.sub(r'\s+',' ',first)[:200].replace('|','\\|')
     h=os.path.exists(dd+'history.txt')
     missed+=h
-    rows.append((m['seed'],first,m['check_results'].replace('checks: ',''),'missed at first; strengthened (history.txt)' if h else 'caught on the first run'))
+    hist=open(dd+'history.txt').read() if h else ''
+    status='missed at first; strengthened (history.txt)' if h else 'caught on the first run'
+    if 'Superseded' in hist: status='superseded by a later fix of the tree (history.txt)'
+    rows.append((m['seed'],first,m['check_results'].replace('checks: ',''),status))
 seedtab='| seed | change (from notes.md) | registered check(s) with the change applied | history |\n|---|---|---|---|\n'+'\n'.join('| '+' | '.join(r)+' |' for r in rows)+'\n'
 def put(d,name,body):
     a='<!-- %s BEGIN -->'%name; b='<!-- %s END -->'%name
